@@ -10,9 +10,9 @@ import (
 	"strings"
 	"time"
 
-	"golang.org/x/crypto/bcrypt"
 	"gopkg.in/yaml.v3"
 
+	"github.com/jhalter/mobius/hotline"
 	"github.com/jhalter/mobius/internal/mobius"
 	"github.com/jhalter/mobius/verifh/explore"
 	"github.com/jhalter/mobius/verifh/ref"
@@ -49,7 +49,9 @@ type c15Model struct {
 	used  map[string]bool // every login ever named
 }
 
-var c15Pws = []string{"", "p", "q", "\xffz"} // the last one starts with wire byte 0x00 (obfuscated 0xFF)
+var c15Pw72, c15Pw73 = strings.Repeat("v", 72), strings.Repeat("v", 72) + "w" // bcrypt's input limit is 72 bytes; the two differ in byte 73 only
+
+var c15Pws = []string{"", "p", "q", "\xffz", c15Pw72, c15Pw73} // "\xffz" starts with wire byte 0x00 (obfuscated 0xFF)
 
 var c15LongLogin = strings.Repeat("L", 252) // its account file name exceeds the 255-byte limit: the write fails
 
@@ -85,6 +87,12 @@ func parseSub(s string) c15Sub {
 	}
 	if sub.pw == "Z" {
 		sub.pw = "\xffz"
+	}
+	if sub.pw == "V" {
+		sub.pw = c15Pw72
+	}
+	if sub.pw == "W" {
+		sub.pw = c15Pw73
 	}
 	if sub.login == "LONG" {
 		sub.login = c15LongLogin
@@ -285,6 +293,35 @@ type c15View struct {
 	HasPw  bool
 }
 
+// oneAccount is an account store holding a single account: the server's own login check
+// (ClientConn.Authenticate) is run against a stored hash, so that "the hash on disk belongs to the
+// current password" is judged by the code that decides logins and not by a copy of its hashing scheme.
+type oneAccount struct{ a hotline.Account }
+
+func (o oneAccount) Create(hotline.Account) error         { return nil }
+func (o oneAccount) Update(hotline.Account, string) error { return nil }
+func (o oneAccount) Delete(string) error                  { return nil }
+func (o oneAccount) List() []hotline.Account              { return []hotline.Account{o.a} }
+func (o oneAccount) Get(login string) *hotline.Account {
+	if login != o.a.Login {
+		return nil
+	}
+	a := o.a
+	return &a
+}
+
+// c15Verifies: a server whose store holds (login, hash) accepts pw and refuses a password that
+// differs from it in the last byte.
+func c15Verifies(login, hash, pw string) bool {
+	cc := &hotline.ClientConn{Server: &hotline.Server{AccountManager: oneAccount{hotline.Account{Login: login, Password: hash}}}}
+	other := []byte(pw + "x")
+	if len(pw) > 0 {
+		other = []byte(pw)
+		other[len(other)-1] ^= 1
+	}
+	return cc.Authenticate(login, obf(pw)) && !cc.Authenticate(login, obf(string(other)))
+}
+
 func (x *c15World) check() string {
 	m := x.m
 	var obs []string
@@ -403,7 +440,7 @@ func (x *c15World) check() string {
 		if a, ok := m.accts[doc.Login]; ok {
 			if !strings.HasPrefix(doc.Password, "$2") {
 				x.fail("views/password-not-stored-as-salted-hash", fmt.Sprintf("%s: %q", e.Name(), doc.Password))
-			} else if bcrypt.CompareHashAndPassword([]byte(doc.Password), obf(a.Pw)) != nil {
+			} else if !c15Verifies(doc.Login, doc.Password, a.Pw) {
 				x.fail("views/stored-hash-does-not-verify-the-current-password", fmt.Sprintf("%s: model password %q", e.Name(), a.Pw))
 			}
 			for _, pw := range c15Pws {
@@ -422,7 +459,7 @@ func (x *c15World) check() string {
 		got := map[string]c15View{}
 		for _, a := range m2.List() {
 			got[a.Login] = c15View{Name: a.Name, Access: [8]byte(a.Access)}
-			if ma, ok := m.accts[a.Login]; ok && bcrypt.CompareHashAndPassword([]byte(a.Password), obf(ma.Pw)) != nil {
+			if ma, ok := m.accts[a.Login]; ok && !c15Verifies(a.Login, a.Password, ma.Pw) {
 				x.fail("views/restarted-server-does-not-verify-the-current-password", fmt.Sprintf("%s: model password %q", a.Login, ma.Pw))
 			}
 		}
@@ -498,6 +535,7 @@ func c15Alphabet(thorough bool) []string {
 		a = append(a, "batch:create,"+l+",p", "batch:modify,"+l+",MARK,B", "batch:modify,"+l+",q", "batch:modify,"+l+",-", "batch:delete,"+l)
 	}
 	a = append(a, "new:LONG,p", "del:LONG", "set:LONG,q")
+	a = append(a, "new:a,W", "set:a,W", "set:a,V", "batch:modify,a,W", "batch:create,b,W")
 	a = append(a, "batch:rename,a,b", "batch:rename,b,a", "batch:rename,a,c d", "batch:rename,c d,a")
 	a = append(a,
 		"batch:create,a,p+modify,a,q",
@@ -549,7 +587,7 @@ func c15Concurrent(kind int) func() explore.SchedOutcome {
 		disk := m2.Get("a")
 		which := func(pwHash string) string {
 			for _, pw := range c15Pws {
-				if bcrypt.CompareHashAndPassword([]byte(pwHash), obf(pw)) == nil {
+				if c15Verifies("a", pwHash, pw) {
 					return pw
 				}
 			}
